@@ -27,12 +27,24 @@ def _val(e: ast.AST, env: Dict[str, Any]) -> Any:
     return _UNKNOWN
 
 
-def eval_test(test: ast.AST, env: Dict[str, Any]) -> Optional[bool]:
+def eval_test(test: ast.AST, env: Dict[str, Any], leaf=None) -> Optional[bool]:
+    """``leaf(node) -> True / False / None`` gets the first shot at every sub-test (used to
+    decide atoms the scenario describes semantically, e.g. "the sign test")."""
+    if leaf is not None:
+        r0 = leaf(test)
+        if r0 is not None:
+            return r0
     if isinstance(test, ast.UnaryOp) and isinstance(test.op, ast.Not):
-        r = eval_test(test.operand, env)
+        r = eval_test(test.operand, env, leaf)
         return None if r is None else not r
+    if isinstance(test, ast.IfExp):
+        c = eval_test(test.test, env, leaf)
+        if c is None:
+            a, b = eval_test(test.body, env, leaf), eval_test(test.orelse, env, leaf)
+            return a if a == b else None
+        return eval_test(test.body if c else test.orelse, env, leaf)
     if isinstance(test, ast.BoolOp):
-        rs = [eval_test(v, env) for v in test.values]
+        rs = [eval_test(v, env, leaf) for v in test.values]
         if isinstance(test.op, ast.And):
             if any(r is False for r in rs):
                 return False
